@@ -3,9 +3,22 @@ From Coq Require Import ZArith List Bool Arith.
 From AK Require Export Common.Sx Common.Err C07.Model.
 Import ListNotations.
 
+(* a parent commit as the harness builds it: build tags before finalize_build_tag_info, and the
+   major.minor of the version file saved in the commit (None: missing / unreadable) *)
+Record rawcommit := mkRawC {
+  raw_parents : list nat;
+  raw_expl : bool;
+  raw_tags : list rawtag;
+  raw_saved : option (Z * Z);
+  raw_pin : option bn }.
+(* RCommit.build_nums = get_builds_numbers(commit); _mk_rcommits in the model sorts again (idempotent) *)
+Definition finalize_commit (r : rawcommit) : commit :=
+  mkC (raw_parents r) (raw_expl r) (builds_numbers (raw_saved r) (raw_tags r)) (raw_pin r).
+
 Inductive case :=
 | Order (repos : list nat) (deps : deps_t)
-| Bump (ci : cinfo) (commits : list commit) (heads : list (nat * nat)).
+| Bump (ci : cinfo) (ctags : list (option (Z * Z) * list rawtag))
+       (commits : list rawcommit) (heads : list (nat * nat)).
 
 Definition sx_bn (b : bn) : sx := let '(x, y, z) := b in SL [SZ x; SZ y; SZ z].
 
@@ -34,5 +47,12 @@ Definition run (c : case) : sx :=
   | Order repos deps =>
       sx_res (fun l => sx_list (fun p => SL [sx_nat (fst p); sx_list sx_nat (snd p)]) l)
              (reports_order repos deps)
-  | Bump ci commits heads => sx_res sx_report (parent_report ci commits heads)
+  | Bump ci ctags commits heads =>
+      (* [report; included_at; get_builds_numbers of every component commit, of every parent commit] *)
+      sx_res (fun r => match sx_report r with
+                       | SL l => SL (l ++ [sx_list (fun p => sx_list sx_bn (builds_numbers (fst p) (snd p))) ctags;
+                                           sx_list (fun c => sx_list sx_bn (c_tags (finalize_commit c))) commits])
+                       | x => x
+                       end)
+             (parent_report ci (map finalize_commit commits) heads)
   end.
